@@ -21,6 +21,9 @@ type Cfg struct {
 	// 0 zeros; 1 ones in per-row NULL bitmaps (what mysqld's pack_row leaves behind);
 	// 2 ones in NULL bitmaps and in presence bitmaps (bitmap_set_all)
 	PadBits int `json:",omitempty"`
+	// OptMeta: table maps carry MySQL-8 optional metadata after the NULL bitmap (SIGNEDNESS for the
+	// numeric columns, default charset, column names), consistent with the table definition
+	OptMeta bool `json:",omitempty"`
 }
 
 // UnitKind enumerates top-level binlog units.
@@ -97,6 +100,9 @@ type Item struct {
 	EvType byte     `json:",omitempty"` // IUnknownEvent
 	Body   []byte   `json:",omitempty"`
 	TS     uint32   `json:",omitempty"`
+	// Repeat > 1: the rows events of an IRows item are logged Repeat times over (one statement that
+	// touched many rows is split into many rows events); a compact way to describe long transactions
+	Repeat int `json:",omitempty"`
 }
 
 // Unit is one top-level unit.
@@ -315,17 +321,28 @@ func (h *History) Lay() (*Layout, error) {
 			case IRows:
 				for _, ti := range it.Maps {
 					ts := it.TS
-					if err := add(ui, ts, refenc.EvTableMap, 0, h.TableMapBody(&h.Tables[ti], nil), false); err != nil {
+					var opt []byte
+					if h.Cfg.OptMeta {
+						opt = OptionalMetadata(&h.Tables[ti])
+					}
+					if err := add(ui, ts, refenc.EvTableMap, 0, h.TableMapBody(&h.Tables[ti], opt), false); err != nil {
 						return err
 					}
 				}
-				for ri := range it.Rows {
-					r := &it.Rows[ri]
-					commit := h.Units[ui].Kind == UAutoRows
-					if err := add(ui, r.TS, RowsEventType(r.Kind, h.Cfg.RowsV2), 0, h.RowsBody(r, ri == len(it.Rows)-1), commit); err != nil {
-						return err
+				reps := it.Repeat
+				if reps < 1 {
+					reps = 1
+				}
+				for rep := 0; rep < reps; rep++ {
+					for ri := range it.Rows {
+						r := &it.Rows[ri]
+						commit := h.Units[ui].Kind == UAutoRows
+						last := ri == len(it.Rows)-1 && rep == reps-1
+						if err := add(ui, r.TS, RowsEventType(r.Kind, h.Cfg.RowsV2), 0, h.RowsBody(r, last), commit); err != nil {
+							return err
+						}
+						// flags are inside the body; header flags stay 0
 					}
-					// flags are inside the body; header flags stay 0
 				}
 			case IQuery, IUnknownStmt:
 				if err := add(ui, it.Q.TS, refenc.EvQuery, 0, h.queryBody(it.Q), false); err != nil {
@@ -548,5 +565,40 @@ func (l *Layout) Boundaries() []Pos {
 	} else {
 		out = append(out, Pos{l.H.FirstFile, l.H.Base})
 	}
+	return out
+}
+
+// OptionalMetadata builds the optional-metadata block a MySQL 8 master appends to a table map:
+// SIGNEDNESS (type 1: one bit per numeric column - integers, FLOAT, DOUBLE, DECIMAL - in column
+// order, most significant bit first), DEFAULT_CHARSET (type 2) and COLUMN_NAME (type 4).
+func OptionalMetadata(t *Table) []byte {
+	var bits []bool
+	for _, c := range t.Cols {
+		switch c.Type {
+		case refenc.TTiny, refenc.TShort, refenc.TInt24, refenc.TLong, refenc.TLongLong, refenc.TFloat, refenc.TDouble, refenc.TNewDecimal:
+			bits = append(bits, c.Unsigned)
+		}
+	}
+	var out []byte
+	if len(bits) > 0 {
+		b := make([]byte, (len(bits)+7)/8)
+		for i, v := range bits {
+			if v {
+				b[i/8] |= 0x80 >> uint(i%8)
+			}
+		}
+		out = append(out, refenc.OptionalTLV(1, b)...)
+	}
+	out = append(out, refenc.OptionalTLV(2, []byte{45})...) // default charset utf8mb4_general_ci, no exceptions
+	var names []byte
+	for _, c := range t.Cols {
+		n := c.Name
+		if len(n) > 250 {
+			n = n[:250]
+		}
+		names = refenc.LenEnc(names, uint64(len(n)))
+		names = append(names, n...)
+	}
+	out = append(out, refenc.OptionalTLV(4, names)...)
 	return out
 }
